@@ -362,6 +362,38 @@ Proof.
   split; [assumption|]. split; [lia|]. rewrite Q'. assumption.
 Qed.
 
+(* the numerator of an integer-valued rational is a multiple of its denominator *)
+Lemma integer_num_multiple : forall y z, wfr y = true -> (qval y == inject_Z z)%Q ->
+  val (rnum y) = Z.to_N (Z.abs z) * val (rden y).
+Proof.
+  intros y z Hy Hq. apply wfr_iff in Hy. destruct Hy as (_ & _ & Hz).
+  assert (Hmul : Z.of_N (val (rnum y)) = (Z.abs z * Z.of_N (val (rden y)))%Z).
+  { unfold qval in Hq. pose proof (qn_nz _ Hz) as Zd.
+    assert (E1 : (sq (rsign y) * qn (val (rnum y)) == inject_Z z * qn (val (rden y)))%Q).
+    { rewrite <- Hq. field. assumption. }
+    unfold qn in E1. destruct (rsign y); cbn [sq] in E1.
+    - assert (E2 : (inject_Z (- Z.of_N (val (rnum y))) == inject_Z (z * Z.of_N (val (rden y))))%Q).
+      { rewrite inject_Z_opp, inject_Z_mult. rewrite <- E1. ring. }
+      rewrite inject_Z_injective in E2. destruct (Z.abs_spec z) as [[? ->]|[? ->]]; nia.
+    - assert (E2 : (inject_Z (Z.of_N (val (rnum y))) == inject_Z (z * Z.of_N (val (rden y))))%Q).
+      { rewrite inject_Z_mult. rewrite <- E1. ring. }
+      rewrite inject_Z_injective in E2. destruct (Z.abs_spec z) as [[? ->]|[? ->]]; nia. }
+  lia.
+Qed.
+
+(* BigRat::is_integer (value-based since 19d36f9) recognises every integer value *)
+Lemma rat_is_integer_spec : forall oc y z, wfr y = true -> (qval y == inject_Z z)%Q ->
+  rat_is_integer oc y = true.
+Proof.
+  intros oc y z Hy Hq. pose proof (integer_num_multiple y z Hy Hq) as Hn.
+  apply wfr_iff in Hy. destruct Hy as (Wn & Wd & Hz).
+  unfold rat_is_integer. rewrite is_eq_spec by (assumption || reflexivity).
+  destruct (val (rden y) =? val (Small 1)); [reflexivity|].
+  destruct (divmod_val oc (rnum y) (rden y) Wn Wd Hz) as (q & r & E & _ & Wr & _ & Vr).
+  rewrite E. rewrite is_eq_spec by (assumption || reflexivity). cbn [val].
+  rewrite Vr, Hn, N.mod_mul by assumption. reflexivity.
+Qed.
+
 (* main branch of pow: exponent with a Positive sign *)
 Lemma pow_level_pos : forall oc recurse x y e, wfr x = true -> wfr y = true ->
   rsign y = Positive -> (qval y == inject_Z (Z.of_N e))%Q ->
